@@ -521,6 +521,10 @@ func (s *State) Import(state types.AppState, version string) error {
 		}
 	}
 
+	for _, h := range state.HaltBlocks {
+		s.Halts.AddHaltBlock(h.Height, h.CandidateKey)
+	}
+
 	return nil
 }
 
